@@ -935,6 +935,8 @@ def adapt_typehints(
             raise_unexpected_value(f"Expected a {typehint_origin}", val)
         if subtypehints is not None:
             if subtypehints[0] == int:
+                if serialize and not all(isinstance(k, int) for k in val):
+                    raise_unexpected_value("Expected all keys to be int", val)  # lets a Union move on to its next member
                 cast = str if serialize else int
                 val = {cast(k): v for k, v in val.items()}
             else:
